@@ -175,7 +175,11 @@ def check_eval(live, op, step, out, stats, log, prefix, against="ref", tag="eval
             out.append(core.crash_failure(prefix, e, step, "%s(x,t) after %s" % (nm, tag)))
             continue
         stats["evaluations"] = stats.get("evaluations", 0) + 1
-        got = np.asarray(got, float)
+        try:
+            got = np.asarray(got, float)
+        except (TypeError, ValueError) as e:
+            out.append(fail("%s.value.%s" % (prefix, nm), step, "%s(x,t) did not return numbers: %r (%s)" % (nm, got, e)))
+            continue
         log.append(["ev", step, nm, core.digest(got.tolist(), 10)])
         if against == "fresh":
             try:
@@ -211,10 +215,10 @@ def check_identity(live, op, step, out, stats, prefix):
         return
     x, t = np.array(op["x"], float), op["t"]
     try:
-        f = np.asarray(live.ode.ode(x, t), float)
-        V = np.asarray(live.ode.vMat(x, t), float)
-        a = np.asarray(live.ode.eventRateVector(x, t), float)
-        g = np.asarray(live.ode.pureOdeVector(x, t), float)
+        f = core.num_array(live.ode.ode(x, t))
+        V = core.num_array(live.ode.vMat(x, t))
+        a = core.num_array(live.ode.eventRateVector(x, t))
+        g = core.num_array(live.ode.pureOdeVector(x, t))
     except core.RunTimeout:
         raise
     except Exception as e:
@@ -465,9 +469,9 @@ def check_sens(live, op, step, out, stats, log, prefix):
     label = "IV" if iv else ("by_state" if by_state else "by_param")
     try:
         if iv:
-            got_f = np.asarray(ode.ode_and_sensitivityIV(z, t), float)
+            got_f = core.num_array(ode.ode_and_sensitivityIV(z, t))
         else:
-            got_f = np.asarray(ode.ode_and_sensitivity(z, t, by_state), float)
+            got_f = core.num_array(ode.ode_and_sensitivity(z, t, by_state))
     except core.RunTimeout:
         raise
     except Exception as e:
@@ -480,9 +484,9 @@ def check_sens(live, op, step, out, stats, log, prefix):
         out.append(fail("%s.rhs.%s" % (prefix, label), step, "augmented right-hand side: %s" % msg))
     try:
         if iv:
-            got_J = np.asarray(ode.ode_and_sensitivityIV_jacobian(z, t), float)
+            got_J = core.num_array(ode.ode_and_sensitivityIV_jacobian(z, t))
         else:
-            got_J = np.asarray(ode.ode_and_sensitivity_jacobian(z, t, by_state), float)
+            got_J = core.num_array(ode.ode_and_sensitivity_jacobian(z, t, by_state))
     except core.RunTimeout:
         raise
     except Exception as e:
@@ -727,11 +731,16 @@ def execute_variants(case, prefix):
             for (x, t) in case["points"]:
                 for nm in ("ode", "jacobian") + (("eventRateVector",) if kind != "explicit_ode" and ref.m else ()):
                     try:
-                        got = np.asarray(getattr(ode, nm)(np.array(x, float), t), float)
+                        got = getattr(ode, nm)(np.array(x, float), t)
                     except core.RunTimeout:
                         raise
                     except Exception as e:
                         out.append(core.crash_failure(prefix, e, vi, "%s on variant %d" % (nm, vi)))
+                        continue
+                    try:
+                        got = np.asarray(got, float)
+                    except (TypeError, ValueError) as e:
+                        out.append(fail("%s.route.%s" % (prefix, nm), vi, "variant %d: %s(x,t) did not return numbers: %r" % (vi, nm, got)))
                         continue
                     stats["evaluations"] = stats.get("evaluations", 0) + 1
                     log.append(["var", vi, nm, core.digest(got.tolist(), 10)])
